@@ -126,7 +126,7 @@ def check(cx):
     # ---- C20.3 frame cap, read_exact ----------------------------------------------------------------------
     r3 = cx.rule("C20.3", "MPR/WMC: read_message reads header and body with read_exact, both propagated with ?, and "
                  "allocates the body only after the MAX_MESSAGE_SIZE test; write_message writes only after the same test; "
-                 "no other read primitive is used in the framing functions", floor=4)
+                 "no other read primitive is used in the framing functions; reader and writer cap the same quantity", floor=5)
     mx = cx.guard(r3, "MAX_MESSAGE_SIZE", p.const, "tcp::MAX_MESSAGE_SIZE")
     rm = cx.guard(r3, "read_message", p.fn, "tcp::read_message")
     if rm:
@@ -156,6 +156,30 @@ def check(cx):
                 and any(str((op_const(o) or {}).get("cdef", "")).endswith("MAX_MESSAGE_SIZE") or (op_const(o) or {}).get("v") == mx for o in s["rv"]["o"])]
         cx.verdict(len(ws) >= 2 and bool(cmps) and all(any(wm.dominates(b, w.bb) for b in cmps) for w in ws), r3, "write-after-cap", wm.where(),
                    "writes dominated by the size test", "write_message writes a frame without the MAX_MESSAGE_SIZE test")
+
+    # writer and reader apply the cap to the same quantity - the body length as it stands (len() on the one side, the decoded
+    # prefix on the other), with no arithmetic on it: otherwise a frame one side accepts is rejected by the other
+    if rm and wm:
+        def capped_operand(fn_):
+            out = []
+            for b in fn_.blocks:
+                for st in b["stmts"]:
+                    rv = st["rv"]
+                    if rv.get("r") == "bin" and rv["op"] in ("Gt", "Ge", "Lt", "Le") and any(
+                            str((op_const(o) or {}).get("cdef", "")).endswith("MAX_MESSAGE_SIZE") or (op_const(o) or {}).get("v") == mx for o in rv["o"]):
+                        for o in rv["o"]:
+                            l = op_local(o)
+                            if l is None:
+                                continue
+                            arith = [s2["rv"]["op"] for b2 in fn_.blocks for s2 in b2["stmts"] if s2["dst"] and s2["dst"][0] in (fn_.dep_closure(l) | {l})
+                                     and s2["rv"].get("r") == "bin" and s2["rv"]["op"] in ("Add", "AddWithOverflow", "Sub", "SubWithOverflow", "Mul", "MulWithOverflow")]
+                            out.append((rv["op"], tuple(sorted(set(arith)))))
+            return out
+        a_r, a_w = capped_operand(rm), capped_operand(wm)
+        cx.verdict(bool(a_r) and bool(a_w) and set(a_r) == set(a_w) and not any(x[1] for x in a_r + a_w), r3, "cap-same-quantity", rm.where(),
+                   "both sides compare the plain body length (%s)" % sorted(set(a_r)),
+                   "read_message and write_message do not cap the same quantity (reader %s, writer %s; arithmetic on the compared length is "
+                   "listed): a maximal frame the sender accepts is rejected by the receiver, or the other way round" % (a_r, a_w))
 
     # ---- C20.3b the frame reader is the caller's reader; C20.3c a length prefix is the byte length ------------------------
     r3b = cx.rule("C20.3b", "FLOW: every call of read_message hands on the reader the caller was given (a parameter or a field), never an "
